@@ -64,7 +64,7 @@ def gen(ctx, groupings, caps, path):
                 tg = exists.get(src, [])
                 if not tg:
                     continue
-                if q:
+                if q or g.get("sq") == 3:      # mask groupings (sq = 3) are many: one target each in either tier
                     pref = [t for t in PREFER[g["fam"]] if t in tg]
                     to = [rnd.choice(pref)] if pref and rnd.random() < 0.6 else [rnd.choice(tg)]
                     add(op="group", fam=g["fam"], lanes=g["lanes"], to=to, **{"from": src})
@@ -236,9 +236,9 @@ def describe(ev, why, d):
 
 def run(ctx):
     exe = build()
-    r = tlc_mc(ctx, "MC_Simd", tag="simd", workers=4)
+    r = tlc_mc(ctx, "MC_Simd", tag="simd", workers=4, constants={"Masks": '"few"' if ctx.quick else '"all"'})
     groupings = [json.loads(x) for x in extract_prints(r.out_path, "REPLAY")]
-    if len(groupings) < 1000:
+    if len(groupings) < 2000 or not any(g.get("sq") == 3 for g in groupings):
         raise ToolError("MC_Simd emitted only %d lane groupings" % len(groupings))
     ctx.cov["samples"].append({"lane_grouping_emitted_by_TLC": groupings[len(groupings) // 2]})
     caps = caps_of(exe, ctx)
